@@ -6,6 +6,7 @@ CPython's own parser) to the same tree as the fully parenthesised reference (?:P
 by the solver.  Class forms (quantifiers.py) are proved textually equal to the method forms."""
 from .. import vcrun
 from . import _b1
+from ._groups import EXC
 
 LEVEL = "proof"
 P = "pregex.core.pre.Pregex."
@@ -18,7 +19,7 @@ FUNCS += ["pregex.core.quantifiers." + c + ".__init__" for c in ("Optional", "In
 
 
 def run(rep, tier):
-    vcrun.run_functions(rep, FUNCS, tier)
+    vcrun.run_functions(rep, FUNCS + EXC, tier)
     # the quantifiers group the operand by its inferred category and raise CannotBeRepeatedException off its repeatable flag:
     # both VALUES are __infer_type's assumed contract
     _b1.run(rep, tier, ["category", "flag", "total"], "category (is the operand an atom: (?:P) or P before the suffix) and repeatable flag "
